@@ -226,10 +226,16 @@ class _LimitStrLengthVisitor:
         return node
 
     def visit_UnaryOperator(self, node):
+        initial_max_len = self.max_len
         self.max_len -= len(node.value)
         if node.precedence >= node.children[0].precedence:
             self.max_len -= 2
-        return UnaryOperator(node.value, self.visit_node(node.children[0]))
+        child = self.visit_node(node.children[0])
+        if self.max_len >= 0:
+            return UnaryOperator(node.value, child)
+        else:
+            self.max_len = initial_max_len - 3
+            return EllipsisLeaf()
 
     def visit_BinaryOperator(self, node):
         initial_max_len = self.max_len
